@@ -199,6 +199,13 @@ with SqliteImpl.impl_store.impl_manager as impl:
     def _clip(x, lower, upper):
         return sqa.func.max(sqa.func.min(x, upper), lower)
 
+    @impl(ops.coalesce)
+    def _coalesce(*x):
+        # SQLite's COALESCE needs at least two arguments
+        if len(x) == 1:
+            return x[0]
+        return sqa.func.coalesce(*x)
+
     @impl(ops.dt_day_of_week)
     def _day_of_week(x):
         return (sqa.extract("dow", x) + 6) % sqa.literal_column("7") + 1
